@@ -53,10 +53,9 @@ let show_validate cfg =
   | VCollision _ | VMalformed _ -> "rejected"
 
 (* consumers.  l2gw: the l2gw trigger's AAA request (group, AAA policy) for a pair; l2fw: does the ipoe component hand a
-   DHCP frame of the pair to l2gw.  argv[3]: "repaired" (default) = decided by the range the pair is classified to;
-   "defective" = /repo HEAD, which asks whether ANY range of the matched group is an l2gw range;
-   "rescan" = the l2gw policy resolution before /repo 60d937f (old replays only)
-   l2gw|l2fw <G> {<name> <gpol> <R> {<sv> <cv> <rpol> <acc>}} <Q> {<s> <c>}     acc = l | i | p | ip *)
+   DHCP frame of the pair to l2gw (both ask the matched group's access-types, group level or any range).
+   argv[3] = "rescan": the l2gw policy resolution before /repo 60d937f (old replays only)
+   l2gw|l2fw <G> {<name> <gpol> <gacc> <R> {<sv> <cv> <rpol> <acc>}} <Q> {<s> <c>}   gacc = l | - ; acc = l | i | p | ip *)
 let variant = if Array.length Sys.argv > 3 then Sys.argv.(3) else "repaired"
 
 let consumer kind toks =
@@ -66,23 +65,21 @@ let consumer kind toks =
     let ng = int_of_string g in
     let rec groups k rest acc = if k = 0 then (List.rev acc, rest) else
       match rest with
-      | name :: gpol :: r :: rest ->
+      | name :: gpol :: gacc :: r :: rest ->
         let nr = int_of_string r in
         let (toks, rest) = take (4 * nr) rest in
         let rec quads = function
           | a :: b :: c :: d :: t -> ((cps_of_token a, cps_of_token b), (cps_of_token c, d = "l")) :: quads t
           | _ -> [] in
-        groups (k-1) rest (((cps_of_token name, cps_of_token gpol), quads toks) :: acc)
+        groups (k-1) rest (((cps_of_token name, (cps_of_token gpol, gacc = "l")), quads toks) :: acc)
       | _ -> failwith "bad consumer case" in
     let (acfg, rest) = groups ng rest [] in
     let qs = match rest with _ :: qs -> qs | [] -> [] in
     let rec qpairs = function a :: b :: t -> (int_of_string a, int_of_string b) :: qpairs t | _ -> [] in
     if kind = "l2fw" then
-      let f = if variant = "defective" then l2gw_handoff_bygroup else l2gw_handoff in
-      String.concat " " (List.map (fun (s, c) -> if f acfg (n_of_int s) (n_of_int c) then "fwd" else "no") (qpairs qs))
+      String.concat " " (List.map (fun (s, c) -> if l2gw_handoff acfg (n_of_int s) (n_of_int c) then "fwd" else "no") (qpairs qs))
     else
-      let f = if variant = "rescan" then l2gw_policy_rescan
-        else if variant = "defective" then l2gw_policy_bygroup else l2gw_policy in
+      let f = if variant = "rescan" then l2gw_policy_rescan else l2gw_policy in
       String.concat " " (List.map (fun (s, c) ->
           match f acfg (n_of_int s) (n_of_int c) with
           | None -> "none"
